@@ -126,8 +126,8 @@ CHECKS = {
         'strict_pd=True for self.prior), on balance_param, on the pair differences and on the labels; alpha is self.sparsity_param; '
         'components_ is stored only after the test on raised_error / negative eigenvalue / non-finite entries of the result, whose other '
         'branch raises RuntimeError; the solver call dominates that store on every path and its handler catches Exception (not a '
-        'narrower class) while recording the error; the vetting predicate has exactly the three documented disjuncts; the empirical '
-        'matrix is X^T L X built from the pair differences and labels in the documented form. That the solver output minimises the objective is NOT decided.'),
+        'narrower class) while recording the error; the vetting predicate has exactly the three documented disjuncts; the solver input is M0^-1 + balance_param * D^T Diag(y) D in the algebra of matrix words (any spelling, any temporaries); the prior options have '
+        'their documented forms, SDML requests a strictly PD prior computed from its own training pairs (rules shared with C20). That the solver output minimises the objective is NOT decided.'),
   note=TB),
  'C14': dict(
   technique='static analysis: who-may-write on the best iterate, guard normalisation (error2 < eps), symbolic spectral form of the PSD clip, statement-order rule for the budget, per-cycle reset rule, exact rational-function comparison of the projection formulas, sign algebra on the diagonal candidates, must-follow rule for assert_all_finite, no-write rule on hyper-parameters',
@@ -136,7 +136,7 @@ CHECKS = {
         'hundredth of w.A computed before any update; in the diagonal variant every candidate is np.maximum(0, .) and A_ = diag(w); '
         'every objective evaluation is followed by assert_all_finite; the `satisfy` flag is reset at the start of every projection cycle; '
         'the projection onto the budget hyperplane and the half-space step equal the documented formulas as exact rational functions; '
-        'no hyper-parameter is reassigned and the caller\'s init object is never written to. That the budget is met numerically is NOT decided.'),
+        'no hyper-parameter is reassigned and the caller\'s init object is never written to; the relative violation accepted as feasible is the fixed documented 1% (not a hyper-parameter). That the budget is met numerically is NOT decided.'),
   note=TB),
  'C15': dict(
   technique='static analysis: sign algebra over the weight update, symbolic matrix-algebra evaluation of _components_from_basis_weights, guard normalisation of the checkpoint, value-flow of normalize(), exact rational-function comparison of the dual-averaging step, loop-exit rule, shared definite-assignment, RNG and hyper-parameter rules',
@@ -145,7 +145,7 @@ CHECKS = {
         'best_w changes only under obj < best_obj together with best_obj; LDA basis rows pass through normalize; every basis option path '
         'is executable and all randomness comes from check_random_state(self.random_state); the low-rank branch is taken exactly when '
         'fewer active bases than features remain; the dual-averaging step (average gradient, proximal step with gamma, step size) equals '
-        'the documented formula as an exact rational function; the loop has no exit other than max_iter; no hyper-parameter is reassigned. '
+        'the documented formula as an exact rational function; the loop has no exit other than max_iter; no hyper-parameter is reassigned; the weight vector kept at a checkpoint is never overwritten in place by later iterations. '
         'Equality of the iterates with a reference run for a seed is NOT decided.'),
   note=TB + ' Hyper-parameter ranges of the property quantifier (gamma > 0, max_iter >= output_iter >= 1).'),
  'C16': dict(
@@ -159,7 +159,7 @@ CHECKS = {
         'pos_label=1) outputs, NaN entries are zeroed before the arg-max; max_tpr / max_tnr - roc_curve(..., pos_label=1, '
         'drop_intermediate=False) so that no candidate threshold is dropped, admissible sets {1 - fpr >= min_rate} / {tpr >= min_rate} '
         'and objectives tpr / 1 - fpr as normalised linear forms, the arg-max inside the admissible set is mapped back through the '
-        'index set; parameters are validated before any work; ITML/MMC/SDML.fit calibrate on the training pairs with the given '
+        'index set; parameters are validated before any work, and the validation - interpreted over the partition {NaN, <0, 0, (0,1), 1, >1} of min_rate - rejects exactly the values outside [0, 1] including NaN; ITML/MMC/SDML.fit calibrate on the training pairs with the given '
         'calibration_params. That the stored threshold attains the optimum on a given validation set (behaviour of the scikit-learn '
         'curve functions, floating-point ties) is NOT decided.'),
   note=TB + ' Library semantics assumed: precision_recall_curve / roc_curve return the rates at every distinct score in decreasing threshold order, the first ROC point rejecting every pair; predict accepts distance <= threshold_ (decided by C04).'),
